@@ -90,7 +90,7 @@ func respell(v any, mask int, top bool) any {
 func init() {
 	// ------------------------------------------------------------------ C12
 	register("C12", func(c *engine.Ctx) {
-		c.Rule = "random schemas (all features, titles, numeric-looking keys) x random option sets; each generated: three times in one process, from files whose objects have their keys in three different random orders, from a relocated directory, and (a sample) by the CLI binary in separate processes; all outputs must be byte-identical under the same names. Colliding names: sets of definition / property names that normalise to one identifier, with different content, generated 30 times in one process with shuffled key orders. Resolve-extension order: an extension-less reference with candidate files .json / .yaml / .yml of different content, three orders of the extension list: the first listed wins, 30 generations each. Mapping order: sets of 1..4 schema mappings whose ids are pairwise distinct but nearly equal to the schema's $id (trailing # or /, letter case, trailing space, prefix) in EVERY slice order (main.go takes the order from a map): identical outputs, equal to the model's route / rootOverride. Distinct = distinct (option set, schema shape)."
+		c.Rule = "random schemas (all features, titles, numeric-looking keys) x random option sets; each generated: three times in one process, from files whose objects have their keys in three different random orders, from a relocated directory, and (a sample) by the CLI binary in separate processes; all outputs must be byte-identical under the same names. Colliding names: sets of definition / property names that normalise to one identifier, with different content, generated 30 times in one process with shuffled key orders. Resolve-extension order: an extension-less reference with candidate files .json / .yaml / .yml of different content, three orders of the extension list: the first listed wins, 30 generations each. Mapping order: sets of 1..4 schema mappings whose ids are pairwise distinct but nearly equal to the schema's $id (trailing # or /, letter case, trailing space, prefix) in EVERY slice order (main.go takes the order from a map): identical outputs, equal to the model's route / rootOverride. Command line in separate processes: the extension-less reference with 2-3 --resolve-extension flags in six orders and spellings (first listed wins where it has its dot), and one invocation with three mapped ids, 13 processes each, byte-identical. Distinct = distinct (option set, schema shape)."
 		c.Proofs([]string{"GJS.Props.C12"}, []string{
 			"GJS.Props.C12.sortedKeys_perm", "GJS.Props.C12.alookup_perm", "GJS.Props.C12.visited_perm", "GJS.Props.C12.parseTypeList_order_free",
 			"GJS.Props.C12.route_perm", "GJS.Props.C12.rootOverride_perm", "GJS.Props.C12.route_exact",
@@ -238,6 +238,64 @@ func init() {
 					break
 				}
 			}
+		}
+		// the same through the command line, in separate processes: the order of repeated flags is the user's, not a
+		// map's.  (a) the extension-less reference above with two or three --resolve-extension flags, every order of
+		// the flags; (b) an invocation with three mapped schema ids; each 12 processes, byte-identical outputs, and for
+		// (a) the first listed extension wins
+		if bin != "" {
+			cliDir := filepath.Join(tmp, "cliext")
+			_ = os.MkdirAll(cliDir, 0o755)
+			for _, e := range []string{".json", ".yaml", ".yml"} {
+				body := sgen.M{"$id": "urn:item" + e, "title": "Item", "type": "object", "properties": sgen.M{"name": sgen.M{"type": "string"}, "from" + strings.TrimPrefix(e, "."): sgen.M{"type": "integer"}}}
+				_ = os.WriteFile(filepath.Join(cliDir, "item"+e), core.MustJSON(body), 0o644)
+			}
+			_ = os.WriteFile(filepath.Join(cliDir, "main.json"), core.MustJSON(sgen.M{"$id": "urn:c12", "type": "object", "properties": sgen.M{"item": sgen.M{"$ref": "./item"}}}), 0o644)
+			for k, id := range []string{"a", "b", "c"} {
+				_ = os.WriteFile(filepath.Join(cliDir, "m"+id+".json"), core.MustJSON(sgen.M{"$id": "urn:m:" + id, "type": "object", "properties": sgen.M{"v": sgen.M{"type": []string{"string", "integer", "boolean"}[k]}}}), 0o644)
+			}
+			type inv struct {
+				name string
+				args []string
+				want string
+			}
+			var invs []inv
+			for _, exts := range [][]string{{".json", ".yaml"}, {".yaml", ".json"}, {".yml", ".json", ".yaml"}, {".yaml", ".yml", ".json"}, {"json", "yaml"}, {"yml", "yaml", "json"}} {
+				a := []string{"-p", "main", "-o", "-"}
+				for _, e := range exts {
+					a = append(a, "--resolve-extension", e)
+				}
+				w := ""
+				if strings.HasPrefix(exts[0], ".") {
+					w = "From" + exts[0][1:] + " "
+				}
+				invs = append(invs, inv{fmt.Sprintf("resolve-extension flags %v", exts), append(a, "main.json"), w})
+			}
+			invs = append(invs, inv{"three mapped ids", []string{"-p", "example.com/x/main", "-o", "-",
+				"--schema-package", "urn:m:a=example.com/x/main", "--schema-output", "urn:m:a=-", "--schema-root-type", "urn:m:a=Alpha",
+				"--schema-package", "urn:m:b=example.com/x/main", "--schema-output", "urn:m:b=-", "--schema-root-type", "urn:m:b=Beta",
+				"--schema-root-type", "urn:m:c=Gamma", "ma.json", "mb.json", "mc.json"}, ""})
+			for _, iv := range invs {
+				first := runCLI(bin, cliDir, "", iv.args...)
+				c.Eval("cli-processes|" + iv.name)
+				c.Count("cli repeated processes", fmt.Sprintf("%s: exit %d, %d bytes", iv.name, first.Exit, len(first.Stdout)))
+				if first.Exit == 0 && iv.want != "" && !strings.Contains(first.Stdout, iv.want) {
+					fails++
+					c.Fail("oracle", fmt.Sprintf("command line, %s: the extension-less reference was not resolved with the first listed extension (expected a field %s)", iv.name, iv.want),
+						M{"kind": "cli-repeat", "args": iv.args, "files": listDir(cliDir), "stdout": clip(first.Stdout, 1500), "stderr": clip(first.Stderr, 300)}, false)
+					continue
+				}
+				for rep := 0; rep < 12; rep++ {
+					got := runCLI(bin, cliDir, "", iv.args...)
+					if got.Stdout != first.Stdout || got.Exit != first.Exit {
+						fails++
+						c.Fail("oracle", fmt.Sprintf("command line, %s: process %d of the same invocation writes other bytes", iv.name, rep+2),
+							M{"kind": "cli-repeat", "args": iv.args, "files": listDir(cliDir), "first_stdout": clip(first.Stdout, 1500), "other_stdout": clip(got.Stdout, 1500)}, false)
+						break
+					}
+				}
+			}
+			c.Programs += len(invs)
 		}
 		mappingOrderStream(c, &fails)
 		c.FactsVerdict(fails > 0)
